@@ -528,6 +528,17 @@ def rule_emptyidx(ctx) -> RuleResult:
                 idx_vars.add(n.targets[0].id)
         sites = [n for n in walk_own(f.node) if isinstance(n, ast.Subscript) and isinstance(n.ctx, ast.Load) and isinstance(n.value, ast.Name)
                  and n.value.id in idx_vars and _const_index(n.slice) in (0, -1)]
+        # arrays of the same length as a label index (sorter = np.argsort(expect)): a gather `sorter[(idx,)]` with computed positions fails on an
+        # empty index just like expect[-1] does
+        same_len = {}
+        for n in walk_own(f.node):
+            if isinstance(n, ast.Assign) and len(n.targets) == 1 and isinstance(n.targets[0], ast.Name) and isinstance(n.value, ast.Call) \
+                    and norm(n.value.func) in ("np.argsort", "numpy.argsort") and n.value.args and isinstance(n.value.args[0], ast.Name) and n.value.args[0].id in idx_vars:
+                same_len[n.targets[0].id] = n.value.args[0].id
+        derived_sites = [n for n in walk_own(f.node) if isinstance(n, ast.Subscript) and isinstance(n.ctx, ast.Load) and isinstance(n.value, ast.Name)
+                         and n.value.id in same_len and not isinstance(n.slice, ast.Slice) and _const_index(n.slice) is None
+                         and any(isinstance(x, ast.Name) for x in ast.walk(n.slice))]
+        sites = sites + derived_sites
         if not sites:
             continue
         cfg = CFG(f)
@@ -537,7 +548,7 @@ def rule_emptyidx(ctx) -> RuleResult:
                     f"{v}.size > 0": True, f"{v}.size == 0": False, f"len({v}) >= 1": True, f"len({v}) != 0": True}
 
         for s in sites:
-            v = s.value.id
+            v = same_len.get(s.value.id, s.value.id)
             table = nonempty_atoms(v)
 
             # must-analysis: is v known non-empty?
